@@ -318,6 +318,10 @@ struct Init {
                 if (seed % 5 == 0) q.cfg.sim.knobs["PNC_DEFAULT_CHUNKSIZE"] = (long)(1 << rng.range(6, 10));
                 if (seed % 7 == 0) q.cfg.sim.env["PNETCDF_SAFE_MODE"] = "1";
                 long long c = (long long)((seed - 1) % (uint64_t)std::max<long long>(total_cases, 1)); bool lap0 = (seed - 1) < (uint64_t)total_cases;
+                if (!lap0 && seed % 2 == 0) {   // second half of the statement: valid programs of the other properties' generators on the sanitizer build
+                    GenParams g; g.max_np = 4; g.max_data_ops = th ? 16 : 10; g.nonblocking = true; g.redef = true; g.fill = (seed % 4 == 0); g.hints = true; g.knobs = true; g.utf8_names = true; g.meta_heavy = (seed % 6 == 0); g.big = (seed % 8 == 0); g.align_args = true; g.erange = true; g.multi_file = (seed % 10 == 0);
+                    return gen_program(seed, g, "C19");
+                }
                 size_t fi = 0; while (fi + 1 < pool.size() && pool[fi + 1].first_case <= c) fi++;
                 const SeedFile &sf = pool[fi]; std::vector<uint8_t> b = sf.bytes; long long k = c - sf.first_case; std::string damage;
                 if (lap0) {
@@ -335,13 +339,14 @@ struct Init {
             };
             p.check = [](Program &q) {
                 RunOpts o; o.check_leaks = true; long long fsz = q.preload.empty() ? 0 : (long long)q.preload[0].second.size(); o.alloc_limit = (64LL << 20) + 16 * fsz;
+                if (q.preload.empty()) { RunOpts v; return run_program(q, v); }   // a valid program: every model oracle, on the sanitizer build
                 q.cfg.sim.max_steps = 60000;   // a damaged header of a few hundred bytes must not need more (time related to the size of the file)
                 RunResult r = run_program(q, o);
                 if (!r.violations.empty() && !q.ops.empty() && r.violations[0].detail.find("seedfile") == std::string::npos) r.violations[0].detail += " [" + op_to_string(q.ops[0]) + "]";
                 return r;
             };
             p.nontrivial = [](const Program &q, const RunResult &r) { return r.st.fileio >= 1; };
-            p.assumptions = {"memory-safety verdicts come from the gcc AddressSanitizer/UndefinedBehaviorSanitizer build of the library and simulator (variant asan); uninitialised reads are not detected (MSan is unusable with uninstrumented libstdc++)", "valid programs of the other profiles are run under the same sanitizer build by their thorough tiers"};
+            p.assumptions = {"after the enumerated space every second seed runs a valid program of the common generator (nonblocking, redefinition, hints, knobs, UTF-8 names incl. non-NFC and 4-byte characters, NC_ERANGE) with all model oracles on the sanitizer build", "memory-safety verdicts come from the gcc AddressSanitizer/UndefinedBehaviorSanitizer build of the library and simulator (variant asan); uninitialised reads are not detected (MSan is unusable with uninstrumented libstdc++)", "valid programs of the other profiles are run under the same sanitizer build by their thorough tiers"};
             p.quick_s = 60; p.thorough_s = 600;
             reg(p);
         }
